@@ -3,6 +3,7 @@ module verif/harness
 go 1.13
 
 require (
+	github.com/dgraph-io/badger v0.0.0-20180227002726-94594b20babf
 	github.com/honeytrap/honeytrap v0.0.0
 	github.com/mimoo/disco v0.0.0-20180114190844-15dd4b8476c9
 	golang.org/x/crypto v0.0.0-20200128174031-69ecbb4d6d5d
